@@ -153,6 +153,9 @@ def handle (req : Json) : Except String Json := do
         let o ← parseObs impl
         pure (specAll h fuel c fns vals ops o)) else pure (0, none)
     let (_, sModel0) := specAll h fuel c fns vals ops modelObs
+    -- a case on which the oracle fails must still be reproduced exactly by the model (the model mirrors
+    -- the code as written): otherwise report it as a new, unclassified violation
+    let sImpl := if sImpl.isSome && !(impl == model) then some ("model differs from implementation on an oracle-failing case: " ++ sImpl.getD "") else sImpl
     let agrees := dispatchAgrees w0 ops (mSteps.map (·.2))
     -- the specification may fail on the model exactly where it fails on the implementation (the model
     -- mirrors the code as written); a disagreement with Dispatch.Model.run is a model defect
@@ -169,6 +172,7 @@ def handle (req : Json) : Except String Json := do
       (if !fns.isEmpty then ["install:function-form"] else []) ++
       (ops.map fun | .simple (.set k _) => (if k.what = "value" then "op:set" else "op:setslot")
                    | .simple (.update _) => "op:update" | .batch _ => "op:batch").eraseDups ++
+      (if impl == model then ["json:model-equals-impl"] else ["json:model-differs"]) ++
       (match agrees with | some true => ["dispatch-model:agrees"] | some false => ["dispatch-model:DISAGREES"] | none => ["dispatch-model:not-comparable"])
     return Json.mkObj [("model", model), ("applicable", Json.bool applicable),
       ("spec_impl", optJ sImpl), ("spec_model", optJ sModel), ("checked_steps", toJson nImpl),
